@@ -38,6 +38,7 @@ import (
 
 	"verifh/internal/sim"
 	"verifh/internal/tr"
+	"verifh/internal/wasmgen"
 )
 
 // ---------------------------------------------------------------------------------------------
@@ -91,11 +92,96 @@ func loadCodes() {
 	get("erc20", testdata.Erc20)
 	get("testcases", testdata.TestCases)
 	get("sft", testdata.SharedFungibleToken)
+	codes["payer"] = payerCode()
 }
 
 var embeddedHash = map[string]common.Hash{
 	"timelock": embedded.TimeLockContract, "voting": embedded.OracleVotingContract, "oraclelock": embedded.OracleLockContract,
 	"refundlock": embedded.RefundableOracleLockContract, "multisig": embedded.MultisigContract,
+}
+
+// payerCode assembles a minimal wasm contract that moves DNA (none of the bundled contracts does):
+//   deploy()                      no-op
+//   pay(addr, amount)             create_transfer_promise(addr, amount)
+//   burn(amount)                  burn(amount)
+//   payfail(addr, amount)         create_transfer_promise(addr, amount); trap
+//   paytwice(addr, amount)        two transfer promises of the same amount
+//   store(key, value)             set_storage(key, value)
+//   storefail(key, value)         set_storage(key, value); trap
+//   ping()                        no-op            } targets of cross-contract calls
+//   boom()                        trap             }
+//   relay(addr, amount)           create_call_function_promise(addr, "ping", <no args>, amount, gas)
+//   relayboom(addr, amount)       create_call_function_promise(addr, "boom", <no args>, amount, gas)
+//   hop_()                        create_call_function_promise(caller(), "ping", <no args>, 0, gas)
+//   relayhop(addr, amount)        create_call_function_promise(addr, "hop_", <no args>, amount, gas)   (nesting depth 2)
+func payerCode() []byte {
+	const (
+		tAlloc = 0 // (i32) -> i32
+		tVoid  = 1 // () -> ()
+		t2     = 2 // (i32, i32) -> ()
+		t1     = 3 // (i32) -> ()
+		t5     = 4 // (i32 x 5) -> i32
+	)
+	const (
+		fTransfer = 0 // imports
+		fBurn     = 1
+		fSet      = 2
+		fCall     = 3
+		fCaller   = 4
+	)
+	// constant regions {offset, capacity, length} (little endian) and their bytes
+	le := func(v uint32) []byte { return []byte{byte(v), byte(v >> 8), byte(v >> 16), byte(v >> 24)} }
+	const base = 1024
+	const (
+		rPing   = base      // "ping"
+		rBoom   = base + 12 // "boom"
+		rNoArgs = base + 24 // argument vector without arguments (protobuf format marker only)
+		rHop    = base + 36 // "hop_"
+		rZero   = base + 48 // empty amount
+	)
+	data := wasmgen.Cat(
+		le(base+60), le(4), le(4),
+		le(base+64), le(4), le(4),
+		le(base+68), le(1), le(1),
+		le(base+69), le(4), le(4),
+		le(base+73), le(0), le(0),
+		[]byte("ping"), []byte("boom"), []byte{0x01}, []byte("hop_"),
+	)
+	trap := []byte{0x00}
+	call := func(method int32, gas int32) []byte {
+		return wasmgen.Cat(wasmgen.LocalGet(0), wasmgen.I32Const(method), wasmgen.I32Const(rNoArgs), wasmgen.LocalGet(1),
+			wasmgen.I32Const(gas), wasmgen.Call(fCall), wasmgen.Drop)
+	}
+	i32 := byte(wasmgen.I32)
+	m := &wasmgen.Module{
+		Types: []wasmgen.FuncType{{Params: []byte{i32}, Results: []byte{i32}}, {},
+			{Params: []byte{i32, i32}}, {Params: []byte{i32}}, {Params: []byte{i32, i32, i32, i32, i32}, Results: []byte{i32}},
+			{Results: []byte{i32}}},
+		Imports: []wasmgen.Import{{Module: "env", Name: "create_transfer_promise", Type: t2}, {Module: "env", Name: "burn", Type: t1},
+			{Module: "env", Name: "set_storage", Type: t2}, {Module: "env", Name: "create_call_function_promise", Type: t5},
+			{Module: "env", Name: "caller", Type: 5}},
+		Funcs: []wasmgen.Func{
+			{Type: tAlloc, Locals: 1, Body: wasmgen.Allocate(), Export: "allocate"},
+			{Type: tVoid, Export: "deploy"},
+			{Type: t2, Export: "pay", Body: wasmgen.Cat(wasmgen.LocalGet(0), wasmgen.LocalGet(1), wasmgen.Call(fTransfer))},
+			{Type: t1, Export: "burn", Body: wasmgen.Cat(wasmgen.LocalGet(0), wasmgen.Call(fBurn))},
+			{Type: t2, Export: "payfail", Body: wasmgen.Cat(wasmgen.LocalGet(0), wasmgen.LocalGet(1), wasmgen.Call(fTransfer), trap)},
+			{Type: t2, Export: "paytwice", Body: wasmgen.Cat(wasmgen.LocalGet(0), wasmgen.LocalGet(1), wasmgen.Call(fTransfer),
+				wasmgen.LocalGet(0), wasmgen.LocalGet(1), wasmgen.Call(fTransfer))},
+			{Type: t2, Export: "storefail", Body: wasmgen.Cat(wasmgen.LocalGet(0), wasmgen.LocalGet(1), wasmgen.Call(fSet), trap)},
+			{Type: t2, Export: "store", Body: wasmgen.Cat(wasmgen.LocalGet(0), wasmgen.LocalGet(1), wasmgen.Call(fSet))},
+			{Type: tVoid, Export: "ping"},
+			{Type: tVoid, Export: "boom", Body: trap},
+			{Type: t2, Export: "relay", Body: call(rPing, 300000)},
+			{Type: t2, Export: "relayboom", Body: call(rBoom, 300000)},
+			// hop_(): calls ping() of its caller (depth 2, back into the first contract)
+			{Type: tVoid, Export: "hop_", Body: wasmgen.Cat(wasmgen.Call(fCaller), wasmgen.I32Const(rPing), wasmgen.I32Const(rNoArgs),
+				wasmgen.I32Const(rZero), wasmgen.I32Const(300000), wasmgen.Call(fCall), wasmgen.Drop)},
+			{Type: t2, Export: "relayhop", Body: call(rHop, 1200000)},
+		},
+		Data: data, DataAt: base, Bump: 8192,
+	}
+	return m.Bytes()
 }
 
 func newWorld(seed int64) *sim.World {
@@ -358,6 +444,15 @@ func (x *Exec) validArgs(s *State, kind, m string, v int) [][]byte {
 		return [][]byte{w.Addrs[x.sender(s, Op{Who: "owner"})].Bytes(), pick(w.Addrs[kSetup].Bytes(), w.Addrs[x.sender(s, Op{Who: "owner"})].Bytes(), w.Addrs[kSetup].Bytes())}
 	case "sft.transferTo":
 		return [][]byte{w.Addrs[kR1].Bytes(), pick(big.NewInt(100).Bytes(), big.NewInt(1).Bytes(), overAmount.Bytes())}
+	case "payer.relay", "payer.relayboom", "payer.relayhop":
+		return [][]byte{pick(s.I.Inc.Bytes(), s.I.Inc.Bytes(), s.I.Inc.Bytes()), pick(part.Bytes(), []byte{}, new(big.Int).Add(bal, common.DnaBase).Bytes())}
+	case "payer.pay", "payer.payfail", "payer.paytwice":
+		two := new(big.Int).Div(new(big.Int).Mul(bal, big.NewInt(2)), big.NewInt(3))
+		return [][]byte{w.Addrs[kR1].Bytes(), pick(part.Bytes(), two.Bytes(), new(big.Int).Add(bal, common.DnaBase).Bytes())}
+	case "payer.burn":
+		return [][]byte{pick(part.Bytes(), bal.Bytes(), new(big.Int).Add(bal, common.DnaBase).Bytes())}
+	case "payer.store", "payer.storefail":
+		return [][]byte{[]byte("key"), pick([]byte("v1"), []byte("v2"), make([]byte, 3000))}
 	case "testcases.test":
 		return [][]byte{pick(u32(1), u32(1), u32(7)), pick(codes["sum"], codes["inc"], codes["inc"])}
 	}
@@ -457,7 +552,8 @@ func (x *Exec) buildTx(s *State, kind string, op Op, from int, nonce uint32) *si
 		if h, ok := embeddedHash[kind]; ok {
 			att = attachments.CreateDeployContractAttachment(h, nil, nil, args...)
 		} else {
-			att = attachments.CreateDeployContractAttachment(common.Hash{}, codes[kind], u32(nonce), args...)
+			// (the address of a wasm contract depends on code, arguments and this nonce only - not on the sender)
+			att = attachments.CreateDeployContractAttachment(common.Hash{}, codes[kind], append(u32(nonce), byte(from)), args...)
 		}
 		spec.Payload, _ = att.ToBytes()
 	case "terminate":
@@ -502,6 +598,10 @@ func (x *Exec) priceTx(n *sim.Node, spec *sim.TxSpec, g uint64) *types.Transacti
 	}
 	return x.W.Tx(*spec)
 }
+
+// wasmHeadroom: a wasm run reserves the gas limits of the promises it creates on top of what it uses
+// itself (the dry run only reports the latter).
+const wasmHeadroom = 16000
 
 func (x *Exec) gasFor(class string, need uint64) uint64 {
 	switch class {
@@ -705,7 +805,11 @@ func (x *Exec) run(s *State, kind string, op Op, caseID int, step int) bool {
 	if x.Rnd.Intn(5) == 0 {
 		spec.Tips = sim.Dna(3, 10)
 	}
-	txs = append(txs, x.priceTx(n, spec, x.gasFor(op.Gas, need)))
+	g := x.gasFor(op.Gas, need)
+	if _, emb := embeddedHash[kind]; !emb && op.Gas == "enough" {
+		g += wasmHeadroom
+	}
+	txs = append(txs, x.priceTx(n, spec, g))
 
 	accepted := txs[:0]
 	for _, tx := range txs {
@@ -885,6 +989,12 @@ func (x *Exec) preset(base *State, name string) *State {
 		s.N = v.N
 		s.I.OV = *v.I.Addr
 		s.I.Known = append(s.I.Known, v.I.Known...)
+	case "payerd":
+		v := &State{N: s.N, I: Inst{Kind: "payer"}}
+		x.mustRun(v, "payer", def("deploy", "zero", "owner"))
+		s.N = v.N
+		s.I.Inc = *v.I.Addr // the peer instance that cross-contract calls go to
+		s.I.Known = append(s.I.Known, v.I.Known...)
 	case "incd":
 		v := &State{N: s.N, I: Inst{Kind: "inc"}}
 		x.mustRun(v, "inc", def("deploy", "zero", "owner"))
@@ -904,7 +1014,7 @@ func main() {
 	summary := flag.String("summary", "", "summary output (json)")
 	flag.Parse()
 	// the wasm runtime prints debug output to fd 1 when IsDebug is set: send it to /dev/null
-	if devnull, err := os.OpenFile(os.DevNull, os.O_WRONLY, 0); err == nil {
+	if devnull, err := os.OpenFile(os.DevNull, os.O_WRONLY, 0); err == nil && os.Getenv("VERIF_WASM_DEBUG") == "" {
 		syscall.Dup2(int(devnull.Fd()), 1)
 	}
 	defer sim.Cleanup()
